@@ -25,6 +25,9 @@ def lgb_case(n, g, rng):
 
 def check(run):
     rng = random.Random(run.seed)
+    # the specification's reader against a writer stated in TLA+: every small group is written and read back
+    run.model_check("mc/MC_LayerGroup.tla", "mc/MC_LayerGroup_wide.cfg", workers=4, coverage=False)
+    run.model_check("mc/MC_LayerGroup.tla", "mc/MC_LayerGroup_quick.cfg" if run.tier == "quick" else "mc/MC_LayerGroup.cfg", workers=4, coverage=False)
     cases = [lgb_case(n, layergroup.random_group(rng), rng) for n in range(150 if run.tier == "quick" else 3000)]
     run.rule = ("random layer groups: 0..5 layers x 0..6 instance objects (position markers and pop ranges), names of 0..12 bytes, objects "
                 "stored in shuffled order with gaps, referenced-set lists of 0..3 ids, every header byte random; distinct by file bytes")
